@@ -1,0 +1,62 @@
+//! Seams for deterministic simulation (feature `verif-hooks`). Inert unless a backend is installed.
+use std::cell::RefCell;
+use std::hash::{BuildHasher, Hasher};
+
+pub trait SimBackend {
+    fn draw(&mut self, n: usize) -> usize;
+    fn bits(&mut self) -> u64;
+    fn hash_key(&mut self) -> (u64, u64);
+    fn probe(&mut self, id: &'static str);
+}
+
+thread_local! { static BACKEND: RefCell<Option<Box<dyn SimBackend>>> = RefCell::new(None); }
+
+pub fn install(b: Box<dyn SimBackend>) { BACKEND.with(|c| *c.borrow_mut() = Some(b)); }
+pub fn uninstall() -> Option<Box<dyn SimBackend>> { BACKEND.with(|c| c.borrow_mut().take()) }
+pub fn probe(id: &'static str) { BACKEND.with(|c| if let Some(b) = c.borrow_mut().as_mut() { b.probe(id) }); }
+
+pub struct SimRng(());
+impl SimRng {
+    pub fn attach() -> Self { SimRng(()) }
+    pub fn gen_range(&mut self, r: std::ops::Range<usize>) -> usize {
+        let n = r.end - r.start;
+        let k = BACKEND.with(|c| c.borrow_mut().as_mut().map(|b| b.draw(n)));
+        match k {
+            Some(k) => r.start + (k % n),
+            None => { use rand::Rng; rand::thread_rng().gen_range(r) }
+        }
+    }
+}
+impl rand::RngCore for SimRng {
+    fn next_u32(&mut self) -> u32 { self.next_u64() as u32 }
+    fn next_u64(&mut self) -> u64 {
+        match BACKEND.with(|c| c.borrow_mut().as_mut().map(|b| b.bits())) { Some(x) => x, None => { use rand::RngCore; rand::thread_rng().next_u64() } }
+    }
+    fn fill_bytes(&mut self, dest: &mut [u8]) { for ch in dest.chunks_mut(8) { let x = self.next_u64().to_le_bytes(); ch.copy_from_slice(&x[..ch.len()]); } }
+    fn try_fill_bytes(&mut self, dest: &mut [u8]) -> Result<(), rand::Error> { self.fill_bytes(dest); Ok(()) }
+}
+
+#[derive(Clone, Debug)]
+pub struct SimHashState { k0: u64, k1: u64 }
+impl Default for SimHashState {
+    fn default() -> Self {
+        match BACKEND.with(|c| c.borrow_mut().as_mut().map(|b| b.hash_key())) {
+            Some((k0, k1)) => SimHashState { k0, k1 },
+            None => {
+                let rs = std::collections::hash_map::RandomState::new();
+                let mut h = rs.build_hasher(); h.write_u64(0); let k0 = h.finish();
+                let mut h = rs.build_hasher(); h.write_u64(1); let k1 = h.finish();
+                SimHashState { k0, k1 }
+            }
+        }
+    }
+}
+impl BuildHasher for SimHashState {
+    type Hasher = std::collections::hash_map::DefaultHasher;
+    fn build_hasher(&self) -> Self::Hasher { let mut h = std::collections::hash_map::DefaultHasher::new(); h.write_u64(self.k0); h.write_u64(self.k1); h }
+}
+pub type HashMap<K, V> = std::collections::HashMap<K, V, SimHashState>;
+pub type HashSet<K> = std::collections::HashSet<K, SimHashState>;
+pub trait SimNew { fn new() -> Self; }
+impl<K, V> SimNew for HashMap<K, V> { fn new() -> Self { std::collections::HashMap::with_hasher(SimHashState::default()) } }
+impl<K> SimNew for HashSet<K> { fn new() -> Self { std::collections::HashSet::with_hasher(SimHashState::default()) } }
